@@ -484,9 +484,16 @@ static int budget_left(int kind, int bound)
   return 1;
 }
 
+static int forced_call, forced_err;
+void vk_force_fault(int call, int err) { forced_call = call; forced_err = err; }
+
 /* returns 0 = real answer, else the injected errno (or negative shape id) */
 static int fault(int call)
 {
+  if (forced_call && forced_call == call && vk_side == 0) {
+    forced_call = 0;
+    return forced_err;
+  }
   if (!vk_cfg.faults_on || !vk_faults_armed || vk_cfg.passthru) return 0;
   if (vk_side == 2) return 0;
   if (!budget_left(K_FAULT, vk_cfg.fault_bound)) return 0;
